@@ -1,7 +1,8 @@
 /-
 Model of /repo/lang/parse/parse.go (with the C11 repairs: an `iterate` assignment without
 `=` is an ordinary error; choosy functions and coroutines need a receiver; the parser counts
-its own recursion against `ast.MaxExprDepth`, `ast.MaxTypeExprDepth`, `ast.MaxBodyDepth`).
+its own recursion against `ast.MaxExprDepth`, `ast.MaxTypeExprDepth`, `ast.MaxBodyDepth`, and
+the length of a postfix chain `a.b[c](d)…` against `ast.MaxExprDepth`).
 
 Every Go function that takes part in a recursion cycle is in the `mutual` block below; the
 cycle-free helpers (`parseList`, `parseArgNode`, `parseBracket`, `parseAssertNode`, …) are
@@ -429,24 +430,26 @@ def assocLoop (pOperand : P Node) (x : Nat) : Nat → List Node → P (List Node
       assocLoop pOperand x fuel (arg :: acc)
     else pure acc.reverse
 
-/-- the postfix loop of `parseOperand` (calls, indexes/slices, selectors). -/
-def operandLoop (env : Env) (pe : P Node) : Nat → Bool → Node → P Node
-  | 0, _, _ => throw .stuck
-  | fuel + 1, first, lhs => do
+/-- the postfix loop of `parseOperand` (calls, indexes/slices, selectors); `cnt` is Go's
+`chainLength`: the chain builds a tree as deep as it is long, so its length is bounded too. -/
+def operandLoop (env : Env) (pe : P Node) : Nat → Nat → Bool → Node → P Node
+  | 0, _, _, _ => throw .stuck
+  | fuel + 1, cnt, first, lhs => do
+    if cnt > MaxExprDepth then failHere
     let x ← peek1
     if x == IDExclam || x == IDQuestion || x == IDOpenParen then do
       let flags ← (if x == IDOpenParen then pure 0 else parseEffect : P Nat)
       let args ← parseList env IDCloseParen (parseArgNode env pe)
-      operandLoop env pe fuel false (newExpr flags IDOpenParen 0 lhs .nil .nil args)
+      operandLoop env pe fuel (cnt + 1) false (newExpr flags IDOpenParen 0 lhs .nil .nil args)
     else if x == IDOpenBracket then do
       let (id0, mhs, rhs) ← parseBracket IDDotDot pe
-      operandLoop env pe fuel false (newExpr 0 id0 0 lhs mhs rhs [])
+      operandLoop env pe fuel (cnt + 1) false (newExpr 0 id0 0 lhs mhs rhs [])
     else if x == IDDot then do
       skip
       let sel ← peek1
       let selector ← (if first && isDQStrLiteral env.tm sel then (do skip; pure sel : P Nat)
         else parseIdent env)
-      operandLoop env pe fuel false (newExpr 0 IDDot selector lhs .nil .nil [])
+      operandLoop env pe fuel (cnt + 1) false (newExpr 0 IDDot selector lhs .nil .nil [])
     else pure lhs
 
 /-- the loops, started with one unit of fuel more than there are tokens left. -/
@@ -456,7 +459,7 @@ def assocAll (pOperand : P Node) (x : Nat) (acc : List Node) : P (List Node) := 
 
 def operandAll (env : Env) (pe : P Node) (lhs : Node) : P Node := do
   let n ← remaining
-  operandLoop env pe (n + 1) true lhs
+  operandLoop env pe (n + 1) 0 true lhs
 
 /-! The expression / type-expression cycle.  Measure: `8 * (e + t + b) + rank` where `e t b`
 are the remaining depth budgets and `rank` orders the unguarded calls
